@@ -903,3 +903,8 @@ package wire
 //@   loop 1 invariant [C19] len(ec.errors) == 0 ==> forall k :: 0 <= k && k < done && calls[k].kind == 2 ==> accessibleFrom(calls[k].valueTypeInfo, calls[k].valueExpr, pkgPath) == nil
 //@   loop 1 invariant ec != nil
 //@   loop 1 invariant [C19] len(ec.errors) == 0 ==> forall k :: 0 <= k && k < done ==> (calls[k].hasCleanup ==> sig.cleanup) && (calls[k].hasErr ==> sig.err)
+
+// C06 ("...and generates nothing"): a package's Content is assigned only on the path on which
+// generateInjectors reported no error.
+//@ func Generate
+//@   atstore GenerateResult.Content requires [C06] len(errs) == 0
